@@ -105,6 +105,66 @@ def real_alias_facts(result, args, kwargs):
     return bad
 
 
+def _held_stores(result, args, kwargs):
+    import bitstring
+    out = []
+
+    def collect(v, depth=0):
+        if isinstance(v, bitstring.BitArray):
+            out.append(v._bitstore)
+        elif isinstance(v, bitstring.Array):
+            collect(v.data, depth + 1)
+        elif isinstance(v, (list, tuple)) and depth < 3:
+            for x in v:
+                collect(x, depth + 1)
+    collect(result)
+    for a in list(args) + list(kwargs.values()):
+        collect(a)
+    return out
+
+
+def _lifetime_facts(fn, shape, vals, r, args, kwargs):
+    """a store that a second, independent call (fresh arguments) hands out again outlived the first call: a module-level
+    constant or a memoised value.  Held by a mutable object, or returned unflagged, it is shared mutable state."""
+    from bitstring.bitstore import BitStore
+    first = _held_stores(r, args, kwargs)
+    is_store = isinstance(r, BitStore)
+    if not first and not is_store:
+        return []
+    args2, kwargs2 = shape.real(vals)
+    try:
+        r2 = fn(*args2, **kwargs2)
+    except BaseException:
+        return []
+    bad = []
+    second = _held_stores(r2, args2, kwargs2)
+    if any(a is b for a in first for b in second):
+        bad.append('own:mutable-object-holds-a-store-that-outlives-the-call')
+    if is_store and r2 is r and not r.immutable and all(r is not a for a in list(args) + list(kwargs.values())):
+        bad.append('own:returned-store-outlives-the-call-and-is-not-flagged-immutable')
+        bad.append('own:memoised-result-not-flagged-immutable')
+    return bad
+
+
+LAST_IDENT = None
+
+
+def _real_ident(r, args):
+    """which positional argument the result *is* (-1: a new object); None when identity is not observable for its class"""
+    import bitstring
+    from bitstring.bitstore import BitStore
+    if isinstance(r, (bitstring.BitArray, bitstring.ConstBitStream, BitStore)):
+        return next((i for i, a in enumerate(args) if a is r), -1)
+    return None
+
+
+def _model_ident(v, args):
+    from .interp import Obj
+    if isinstance(v, Obj) and any(k.name in ('BitArray', 'ConstBitStream', 'BitStore') for k in v.cls.mro):
+        return next((i for i, a in enumerate(args) if a is v), -1)
+    return None
+
+
 def run_real(contract, shape, vals):
     fn = real_function(contract.target)
     args, kwargs = shape.real(vals)
@@ -114,10 +174,13 @@ def run_real(contract, shape, vals):
     try:
         try:
             r = fn(*args, **kwargs)
+            global LAST_IDENT
+            LAST_IDENT = _real_ident(r, args)
             try:
                 LAST_ALIAS = real_alias_facts(r, args, kwargs)
+                LAST_ALIAS += _lifetime_facts(fn, shape, vals, r, args, kwargs)
             except Exception:
-                LAST_ALIAS = []
+                pass
             if hasattr(r, '__next__'):
                 r = ('gen', list(r))
             out = ('ret', _canon_real(r))
@@ -192,9 +255,14 @@ def replay(interp, contract, shape, vals):
         return info
     try:
         if contract.spec is not None:
-            spec_out, spec_state, _ = run_model(interp, contract, shape, vals, 'spec')
+            spec_out, spec_state, (m_args, _mk, m_o) = run_model(interp, contract, shape, vals, 'spec')
             info['spec_outcome'] = _jsonable(spec_out)
             ok = outcomes_agree(real_out, spec_out)
+            if ok and real_out[0] == 'ret' and m_o.kind == 'ret':
+                mi = _model_ident(m_o.value, m_args)
+                if mi is not None and LAST_IDENT is not None and mi != LAST_IDENT:
+                    ok = False
+                    info['identity'] = {'real_result_is_argument': LAST_IDENT, 'spec_result_is_argument': mi}
             if ok and contract.observe_args and real_state != spec_state and not (contract.observe_args == 'on_return' and real_out[0] == 'exc'):
                 ok = False
                 info['real_state'] = _jsonable(real_state)
